@@ -5,6 +5,7 @@ import (
 	"math/rand"
 	"runtime"
 	"sync"
+	"sync/atomic"
 
 	"github.com/hashicorp/raft"
 
@@ -71,6 +72,9 @@ type c17Case struct {
 	// Align: whether the follower's running sum starts where the leader's does
 	// (false: follower middleware restarted inside the range)
 	RestartInRange bool
+	// CompactDuring: while the victim's verifier reads the target range, a head truncation
+	// (snapshot compaction) removes the oldest entry of its log, far below the range
+	CompactDuring bool
 }
 
 func c17Run(c *evid.Ctx, cs c17Case) {
@@ -184,6 +188,20 @@ func c17Run(c *evid.Ctx, cs c17Case) {
 	if cs.Site == "inflight" {
 		m0 = mut
 	}
+	var compacted atomic.Uint64
+	if cs.CompactDuring {
+		var fired atomic.Bool
+		cb := func(i uint64) {
+			if i >= cp1 && i < cp2 && fired.CompareAndSwap(false, true) {
+				if first, err := victim.Faulty.LogStore.FirstIndex(); err == nil && first > 0 && first+1 < a {
+					if victim.V.DeleteRange(first, first) == nil {
+						compacted.Store(first)
+					}
+				}
+			}
+		}
+		victim.Faulty.OnGet.Store(&cb)
+	}
 	// two StoreLogs calls on the leader and a pause after the first checkpoint on the
 	// follower: the verifier queues at most one report, a third arriving while one
 	// runs would be (legitimately) dropped and leave nothing to judge
@@ -228,6 +246,11 @@ func c17Run(c *evid.Ctx, cs c17Case) {
 		c.Inconclusive("case %v: verifier did not quiesce within the watchdog", cs)
 		return
 	}
+	if ci := compacted.Load(); ci > 0 {
+		victim.Faulty.OnGet.Store(nil)
+		victim.Truth.DeleteRange(ci, ci)
+		c.Count("compactions_during_verification", 1)
+	}
 	c.Count("mutations_injected", 1)
 	replay := map[string]any{"case": cs, "p": p, "range2": fmt.Sprintf("[%d,%d)", cp1, cp2), "events": tail(cl.Events, 30)}
 	// blame rule on every report of every node
@@ -266,7 +289,7 @@ func c17Run(c *evid.Ctx, cs c17Case) {
 		return
 	}
 	c.Count("target_reports", 1)
-	c.Distinct("mutation_classes", fmt.Sprintf("%s|%s|%s|restart=%v", cs.Site, cs.Field, cs.Pos, cs.RestartInRange))
+	c.Distinct("mutation_classes", fmt.Sprintf("%s|%s|%s|restart=%v|compacted-during=%v", cs.Site, cs.Field, cs.Pos, cs.RestartInRange, compacted.Load() > 0))
 	if target.RangeErr {
 		if target.Known && target.Holds {
 			c.Violation("C17:undetected:range-mismatch-for-held-range:"+cs.Site, fmt.Sprintf("entry %d (%s) mutated %s (%s) inside range %s which %s holds completely, but the report says ErrRangeMismatch instead of verifying it (follower restarted in range: %v)", p, cs.Pos, cs.Field, cs.Site, target.Report.Range, victim.Name, cs.RestartInRange), replay)
@@ -286,7 +309,7 @@ func c17Run(c *evid.Ctx, cs c17Case) {
 }
 
 func runC17(c *evid.Ctx) {
-	c.Rule("linear cluster histories with exactly one injected mutation inside a verified checkpoint range: position in {first = the previous checkpoint entry, last, middle}, field in {term, type, data flip/truncate/extend/empty, extensions add/change, index (at rest), two entries swapped}, site in {in flight to a follower, at rest on the follower, at rest on the leader}, with and without a follower middleware restart inside the range (which decides whether the written sum is compared); the delivered report for that range must carry ErrChecksumMismatch, and no report may blame in-flight corruption when the node wrote exactly the leader's entries; non-trivial = distinct (site, field, position, restart) whose report was delivered",
+	c.Rule("linear cluster histories with exactly one injected mutation inside a verified checkpoint range: position in {first = the previous checkpoint entry, last, middle}, field in {term, type, data flip/truncate/extend/empty, extensions add/change, index (at rest), two entries swapped}, site in {in flight to a follower, at rest on the follower, at rest on the leader}, with and without a follower middleware restart inside the range (which decides whether the written sum is compared), and in a third of the cases with a head truncation far below the range landing while the victim's verifier reads the range; the delivered report for that range must carry ErrChecksumMismatch, and no report may blame in-flight corruption when the node wrote exactly the leader's entries; non-trivial = distinct (site, field, position, restart) whose report was delivered",
 		"mutations_injected", "mutation_classes")
 	c.Assume("FNV-1a collisions are not searched for", "the index-1 configuration entry special case is excluded")
 	reps := 40
@@ -301,7 +324,7 @@ func runC17(c *evid.Ctx) {
 				for _, pos := range []string{"first", "last", "middle"} {
 					for _, rs := range []bool{false, true} {
 						i++
-						cases = append(cases, c17Case{Seed: c.Seed*1000003 + i, Site: site, Field: field, Pos: pos, RestartInRange: rs})
+						cases = append(cases, c17Case{Seed: c.Seed*1000003 + i, Site: site, Field: field, Pos: pos, RestartInRange: rs, CompactDuring: (r+int(i))%3 == 0})
 					}
 				}
 			}
